@@ -7,6 +7,10 @@ use std::collections::BTreeSet;
 
 pub const OBF_CLASSES: &[&str] = &[
     "a", "a.a", "a$a", "a.a$b", "ab", "b", "a.b", "é", "日本", "a.a.a", "a.a$", "A", "a.b.c", "c",
+    // byte order vs UTF-16 code-unit order vs code-point order: astral vs U+E000..U+FFFF
+    "p.\u{1D49C}", "p.\u{FF21}", "p.Z", "\u{E000}", "\u{10000}", "\u{FFFD}x", "\u{7F}", "\u{80}",
+    // names that differ only in the continuation byte of a two-byte character
+    "x.\u{e0}", "x.\u{e8}", "x.\u{e9}", "x.\u{ea}", "x.\u{eb}", "x.\u{e9}a", "x.",
 ];
 pub const ORIG_CLASSES: &[&str] = &[
     "com.example.Foo",
@@ -22,14 +26,19 @@ pub const ORIG_CLASSES: &[&str] = &[
     "NoPackage",
     "a.b.C$",
     "k.$Weird",
+    "gen$erated.app.Main$$Lambda0",
+    "a$b.c.D$E",
+    "$.$",
 ];
-pub const OBF_METHODS: &[&str] = &["a", "b", "m", "<init>", "c", "ab", "a$", "k", "onClick"];
+pub const OBF_METHODS: &[&str] = &["a", "b", "m", "<init>", "c", "ab", "a$", "k", "onClick", "\u{1D49C}", "\u{FF21}"];
 pub const ORIG_METHODS: &[&str] = &[
     "foo", "bar", "<init>", "lambda$x$0", "baz", "foo2", "onClick", "x", "<clinit>", "méthode",
+    // concatenation coincidences with ARGS ("" ++ "intfoo" = "int" ++ "foo", …)
+    "intfoo", "int,longbar", "a.bx",
 ];
 pub const ARGS: &[&str] = &["", "int", "java.lang.String", "int,long", "a.b", "android.view.View", "int[]"];
 pub const TYPES: &[&str] = &["void", "int", "java.lang.String", "a.b[]", "o.A", "boolean", "é.T"];
-pub const FILES: &[&str] = &["Foo.kt", "Bar.java", "R8$$SyntheticClass", "SourceFile", "Ünï.kt", "x"];
+pub const FILES: &[&str] = &["Foo.kt", "Bar.java", "R8$$SyntheticClass", "SourceFile", "Ünï.kt", "x", "C:\\src\\Foo.kt", "a\\", "\\", "R8$$SyntheticClass", "{}", "a:b"];
 
 /// a name whose LEB128 length prefix needs 3 bytes (> 16383 bytes)
 pub fn huge_name(rng: &mut Rng) -> String {
@@ -44,7 +53,7 @@ pub fn huge_name(rng: &mut Rng) -> String {
 pub fn long_name(rng: &mut Rng) -> String {
     if rng.pct(20) {
         // around the 1-byte / 2-byte length-prefix boundary exactly
-        let n = rng.pick(&[126usize, 127, 128, 129, 255, 256]);
+        let n = rng.pick(&[126usize, 127, 128, 129, 255, 256, 257, 300, 383, 384, 511, 512, 600, 1000]);
         let mut s = String::from("p.");
         while s.len() < n {
             s.push((b'a' + (rng.below(26) as u8)) as char);
@@ -137,10 +146,20 @@ pub struct GenMapping {
 }
 
 /// One line mapping prefix / suffix choice.
+/// decimal, occasionally zero-padded (up to 40 digits)
+pub fn num_str(rng: &mut Rng, n: u64) -> String {
+    if rng.pct(3) {
+        let pad = rng.pick(&[1usize, 2, 5, 18, 19, 20, 21, 22, 30, 40]);
+        format!("{}{}", "0".repeat(pad), n)
+    } else {
+        n.to_string()
+    }
+}
+
 fn member_line(rng: &mut Rng, cfg: &Cfg, range: Option<(u64, u64)>, obf: &str) -> String {
     let mut s = String::from("    ");
     if let Some((a, b)) = range {
-        s.push_str(&format!("{}:{}:", a, b));
+        s.push_str(&format!("{}:{}:", num_str(rng, a), num_str(rng, b)));
     }
     let is_field = rng.pct(12) && range.is_none();
     let ty = rng.pick(TYPES);
@@ -169,7 +188,7 @@ fn member_line(rng: &mut Rng, cfg: &Cfg, range: Option<(u64, u64)>, obf: &str) -
         0..=2 => {}
         3..=5 => {
             let os = small_line(rng, cfg.hostile_numbers);
-            s.push_str(&format!(":{}", os));
+            s.push_str(&format!(":{}", num_str(rng, os)));
         }
         6 => {
             let os = small_line(rng, cfg.hostile_numbers);
@@ -386,6 +405,13 @@ pub fn mutate(rng: &mut Rng, text: &[u8]) -> Vec<u8> {
             continue;
         }
         let pos = rng.below(t.len());
+        if rng.pct(25) {
+            // a random printable ASCII byte (often right before a line end)
+            let c = 33 + rng.below(94) as u8;
+            let p = if rng.pct(50) { find_from(&t, b"\n", pos).unwrap_or(pos) } else { snap_char_boundary(&t, pos) };
+            t.insert(p, c);
+            continue;
+        }
         match rng.below(4) {
             0 => {
                 // delete a token occurrence at/after pos
@@ -445,6 +471,9 @@ pub fn soup(rng: &mut Rng, max_len: usize) -> Vec<u8> {
         b"void", b"\"", b"}", b" {\"id\":\"sourceFile\",\"fileName\":\"", b"sourceFile", b"\xb2", b"\xbc", b"\xc3\xa9",
         b"\xff", b"\xc3", b"\xe2\x80", b"\xe2\x80\xa8", b"\xc2\xa0", b"99999999999999999999999", b"18446744073709551615",
         b"18446744073709551616", b"4294967295", b"0", b"$", b"\t", b"\x00",
+        b"\\", b"\\\n", b"\\\r", b"\\\"", b"'", b"`", b"!", b"%", b"&", b"*", b"+", b",", b"-", b"/", b";", b"<", b"=", b">", b"?",
+        b"@", b"[", b"]", b"^", b"_", b"{", b"|", b"~", b"000000000000000000001", b"18446744073709551617", b"18446744073709551619",
+        b"\"}", b"\"}\n", b"x\"}",
     ];
     let n = rng.below(max_len + 1);
     let mut t = Vec::new();
